@@ -21,6 +21,7 @@ import (
 	_ "go.nanomsg.org/mangos/v3/transport/ipc"
 	_ "go.nanomsg.org/mangos/v3/transport/tcp"
 	_ "go.nanomsg.org/mangos/v3/transport/tlstcp"
+	ssync "go.nanomsg.org/mangos/v3/verifsim/ssync"
 )
 
 var (
@@ -161,4 +162,25 @@ func smokeRealStream(w *W) {
 		w.Failf("SMOKE/err", "client over %s: %v", tran, c.Err)
 	}
 	w.Probe("smoke-real-" + tran)
+}
+
+// serialConn puts a simulator mutex in front of each direction of a
+// connection the harness's own tasks share (a scripted peer's tls.Conn):
+// crypto/tls serialises writers with a sync.Mutex of its own, and a task
+// waiting inside that would be invisible to the scheduler.
+type serialConn struct {
+	net.Conn
+	rmu, wmu ssync.Mutex
+}
+
+func (c *serialConn) Read(p []byte) (int, error) {
+	c.rmu.Lock()
+	defer c.rmu.Unlock()
+	return c.Conn.Read(p)
+}
+
+func (c *serialConn) Write(p []byte) (int, error) {
+	c.wmu.Lock()
+	defer c.wmu.Unlock()
+	return c.Conn.Write(p)
 }
